@@ -44,6 +44,7 @@ import (
 	"os"
 	"os/exec"
 	"path/filepath"
+	"runtime"
 	"sort"
 	"strconv"
 	"strings"
@@ -342,7 +343,19 @@ func parseCrashLog(path, finalWait string) (pts []crashPoint, kinds []string, fw
 
 // ---- children
 
-var crashSem = make(chan struct{}, 16)
+var crashSem = make(chan struct{}, crashPar())
+
+// concurrent child pairs (each child runs with GOMAXPROCS=2)
+func crashPar() int {
+	if n, err := strconv.Atoi(os.Getenv("VERIF_CRASH_PAR")); err == nil && n > 0 {
+		return n
+	}
+	n := runtime.NumCPU()
+	if n < 2 {
+		n = 2
+	}
+	return n
+}
 var crashRootOnce sync.Once
 var crashRoot string
 
@@ -967,7 +980,11 @@ func genCrash(r *rand.Rand, n int, tier string) []string {
 		"1 s r 2 3 s f 4 s f", // rotation that first flushes, then two flushes into the next segment
 		"1 s f r 2 s f r 3 s", // two rotated segments, unflushed tail
 	}
-	for i := 0; i < n && i < len(fixed); i++ {
+	nfixed := len(fixed)
+	if tier == "thorough" {
+		nfixed = 1 // the runner uses several seeds in this tier: the rest of the budget goes to random histories
+	}
+	for i := 0; i < n && i < nfixed; i++ {
 		hists = append(hists, crashHistTokens(fixed[i]))
 	}
 	for len(hists) < n {
